@@ -387,6 +387,10 @@ func (s *StateMachine) ApplyTransactions(ctx context.Context, txs [][]byte, r *l
 		}
 		r.Add(tx, txResultBz, result, events, oversize)
 	}
+	// the 'oversize' transactions ran inside a wrapper that is dropped on return: discard the FSM caches that still hold their effects
+	if oversize {
+		s.ResetCaches()
+	}
 	// update metrics
 	s.Metrics.UpdateLargestTxSize(r.LargestTx)
 	if s.Metrics != nil {
